@@ -78,6 +78,78 @@ impl World {
         Ok(())
     }
 
+    #[allow(clippy::too_many_arguments)]
+    pub fn ev_single_shot_open_raw(&mut self, cfg: &Cfg, kr: usize, ks: Option<usize>, encsrc: &EncSrc, ct: &[u8], aad: &[u8], tag: Option<&[u8]>, cov: &mut Cov) -> V {
+        let kem = cfg.suite.kem;
+        let su = suite(cfg.suite);
+        let sk_r = match self.keys.get(kr).and_then(|x| x.as_ref()) {
+            Some(k) if k.kem == kem => k.sk.clone(),
+            _ => return Ok(()),
+        };
+        let pk_s = if cfg.mode.has_auth() {
+            match ks.and_then(|i| self.keys.get(i)).and_then(|x| x.as_ref()) {
+                Some(k) if k.kem == kem => k.pk.clone(),
+                _ => return Ok(()),
+            }
+        } else {
+            vec![]
+        };
+        let enc = match self.resolve_enc(kem, encsrc) {
+            Some(e) => e,
+            None => return Ok(()),
+        };
+        if !cfg.suite.aead.seals() {
+            return Ok(());
+        }
+        let mode = ModeR { kind: Some(cfg.mode), psk: cfg.psk.0.clone(), psk_id: cfg.psk_id.0.clone(), pk_s: pk_s.clone() };
+        // A: single shot
+        let a: Res<Vec<u8>> = match tag {
+            None => su.ss_open(&mode, &sk_r, &enc, &cfg.info, ct, aad),
+            Some(t) => su.ss_open_in_place(&mode, &sk_r, &enc, &cfg.info, ct, aad, t),
+        };
+        // B: composed
+        let b: Res<Vec<u8>> = match su.setup_receiver(&mode, &sk_r, &enc, &cfg.info) {
+            Err(f) => Err(f),
+            Ok(mut r) => match tag {
+                None => r.open(ct, aad),
+                Some(t) => {
+                    let mut buf = ct.to_vec();
+                    r.open_in_place(&mut buf, aad, t).map(|_| buf)
+                }
+            },
+        };
+        cov.ops += 2;
+        self.t_res(&a);
+        cov.hit(&format!("single_shot_open_raw.{}.{}", if tag.is_some() { "inplace" } else { "alloc" }, out_class_s(&a)));
+        cov.sig_event("SingleShotOpenRaw", &format!("{:?}{:?}{}", kem, cfg.mode, out_class_s(&a)));
+        if let Err(Fail::Panic(m)) = &a {
+            return Err(self.viol("single-shot.open.no-panic", "a value or an error".into(), m.clone()));
+        }
+        // a tag of the wrong size is rejected by the caller-side decoding in both forms, but the
+        // order of decoding differs between the forms only in which argument is reported first
+        let same = match (&a, &b) {
+            (Err(Fail::Decode(..)), Err(Fail::Decode(..))) => true,
+            // a detached tag of the wrong size is refused by AeadTag::from_bytes on the caller's
+            // side, before either form is entered: nothing to compare
+            (Err(Fail::Decode(w, _)), _) | (_, Err(Fail::Decode(w, _))) if w == "tag" => true,
+            _ => a == b,
+        };
+        if !same {
+            return Err(self.viol("single-shot.open.equals-composed", format!("setup_receiver + open: {}", res_s(&b)), res_s(&a)));
+        }
+        let bundle_ok = !cfg.mode.has_psk() || (cfg.psk.is_empty() == cfg.psk_id.is_empty());
+        if bundle_ok && !matches!(a, Err(Fail::Decode(..))) {
+            let refr = refhpke::setup_r(kem, cfg.suite.kdf, cfg.suite.aead, cfg.mode, &enc, &sk_r, &cfg.info, &cfg.psk, &cfg.psk_id, if cfg.mode.has_auth() { Some(&pk_s[..]) } else { None });
+            match (&refr, &a) {
+                (None, Err(Fail::Hpke(E::DecapError))) => cov.hit("probe.single_shot_open_zero_dh"),
+                (None, other) => return Err(self.viol("single-shot.open.zero-dh", "Err(DecapError): a Diffie-Hellman result is all-zero".into(), res_s(other))),
+                (Some(_), Err(Fail::Hpke(E::DecapError))) => return Err(self.viol("single-shot.open.spurious-decap-error", "no DecapError: no DH result is zero".into(), "Err(DecapError)".into())),
+                _ => {}
+            }
+        }
+        Ok(())
+    }
+
     // ------------------------------------------------------------------------------ C03 probes
 
     pub fn ev_derive_probe(&mut self, kem: KemId, ikm: &[u8], cov: &mut Cov) -> V {
@@ -406,6 +478,7 @@ impl World {
             Ev::PskProbe { psk, psk_id } => self.ev_psk_probe(psk, psk_id, cov),
             Ev::RawOpen { r, ct, aad, tag } => self.ev_raw_open(*r, ct, aad, tag.as_ref().map(|t| &t.0[..]), cov),
             Ev::On { inner, .. } => self.apply(inner, cov),
+            Ev::SingleShotOpenRaw { cfg, kr, ks, enc, ct, aad, tag } => self.ev_single_shot_open_raw(cfg, *kr, *ks, enc, ct, aad, tag.as_ref().map(|t| &t.0[..]), cov),
         }
     }
 }
